@@ -51,6 +51,15 @@ var c15retention = gen.Register(&gen.Check[caseC15ret]{
 			what string
 		}
 		ring := make([]kept, 0, c.N)
+		// returned OBJECTS are fresh too: scalars and elements handed out by the package are kept and looked at again at the end
+		type keptObj struct {
+			s    *secp256k1.Scalar
+			e    *secp256k1.Element
+			want []byte
+			what string
+		}
+		var objs []keptObj
+		retDst := []byte("VERIF-C15-retention-dst")
 		s := secp256k1.NewScalar().SetUInt64(c.Seed | 1)
 		three := secp256k1.NewScalar().SetUInt64(3)
 		e := secp256k1.Base()
@@ -101,6 +110,22 @@ var c15retention = gen.Register(&gen.Check[caseC15ret]{
 			default:
 				k = kept{got: secp256k1.Order(), want: ref.Bytes32(ref.N), what: "Order"}
 			}
+			if i%3 == 0 && len(objs) < 20000 {
+				msg := []byte{byte(i), byte(i >> 8), byte(i >> 16), byte(c.Seed)}
+				switch (i / 3) % 6 {
+				case 0, 1, 2:
+					objs = append(objs, keptObj{s: secp256k1.HashToScalar(msg, retDst), want: ref.Bytes32(ref.HashToScalar(msg, retDst)), what: "HashToScalar"})
+				case 3:
+					objs = append(objs, keptObj{s: s.Copy(), want: s.Encode(), what: "Scalar.Copy"})
+				case 4:
+					if i%60 == 12 { // (a hash to the curve costs a hundred microseconds)
+						p, _ := ref.HashToCurve(msg, retDst)
+						objs = append(objs, keptObj{e: secp256k1.HashToGroup(msg, retDst), want: ref.Compress(p), what: "HashToGroup"})
+					}
+				default:
+					objs = append(objs, keptObj{e: e.Copy(), want: e.Encode(), what: "Element.Copy"}, keptObj{s: secp256k1.NewScalar(), want: make([]byte, 32), what: "NewScalar"})
+				}
+			}
 			if c.Hex && i%5 == 0 {
 				_ = s.Hex() // other functions that encode internally take part in whatever is shared
 				_ = e.Hex()
@@ -119,6 +144,24 @@ var c15retention = gen.Register(&gen.Check[caseC15ret]{
 			full := k.got[:cap(k.got)]
 			for j := range full {
 				full[j] = gen.Canary(j + i)
+			}
+		}
+		for i, k := range objs {
+			var got []byte
+			if k.s != nil {
+				got = k.s.Encode()
+			} else {
+				got = k.e.Encode()
+			}
+			if !bytes.Equal(got, k.want) {
+				return gen.Fail("retention/"+k.what+"-object-changed-later", "object number %d of %d kept objects (returned by %s) held %x when it was returned and holds %x now", i, len(objs), k.what, k.want, got)
+			}
+		}
+		for _, k := range objs { // the caller owns them: it changes every one, the others must not move
+			if k.s != nil {
+				k.s.Add(three)
+			} else {
+				k.e.Double()
 			}
 		}
 		// and the library itself must not care about what the caller did to the slices it gave away
